@@ -24,6 +24,7 @@ import (
 	"sync"
 	"time"
 
+	"src.elv.sh/pkg/strutil"
 	"verif.local/harness/elv"
 	"verif.local/harness/lib"
 )
@@ -131,8 +132,10 @@ func runSweep(c *lib.Ctx, dir string) error {
 		return lib.Infra("command table: %v", err)
 	}
 	maxExh := c.Pick(1, 2)
-	nSample := c.Pick(9000, 0)
-	calls, skipped, nClamped := enumerate(tab, maxExh, nSample, c.Rand)
+	devArities := []int{2, 3}
+	sampleArity := c.Pick(2, 3)
+	nSample := c.Pick(5000, 20000)
+	calls, skipped, nClamped := enumerate(tab, maxExh, devArities, sampleArity, nSample, c.Rand)
 	nSweep := len(calls)
 	redirs := redirForms(c.Rand)
 	pipes := pipeForms()
@@ -156,7 +159,7 @@ func runSweep(c *lib.Ctx, dir string) error {
 	for _, cl := range clamps {
 		clampDoc = append(clampDoc, fmt.Sprintf("%s arg %d %v: %s", cl.Cmd, cl.Pos, cl.Classes, cl.Why))
 	}
-	c.Set("sweep", map[string]any{"commands": len(tab), "pool_classes": len(pool), "exhaustive_arity": maxExh, "sampled_next_arity": nSample,
+	c.Set("sweep", map[string]any{"commands": len(tab), "pool_classes": len(pool), "exhaustive_arity": maxExh, "single_deviation_arities": devArities, "sampled_arity": sampleArity, "sampled_calls": nSample,
 		"command_calls": nSweep, "redirection_forms": len(redirs), "pipeline_forms": len(pipes), "directed_probes": nProbe,
 		"skipped_commands": skipped, "skipped_modules": skipModules, "clamped_calls": nClamped, "clamp_list": clampDoc})
 	c.Logf("sweep: %d commands, %d calls (%d command calls, %d redirection forms, %d pipeline forms, %d probes)", len(tab), len(calls), nSweep, len(redirs), len(pipes), nProbe)
@@ -194,7 +197,33 @@ func runSweep(c *lib.Ctx, dir string) error {
 	for i := 0; i < 3 && i < len(calls); i++ {
 		c.Sample(map[string]any{"call": calls[len(calls)/3*i+1], "outcome": outs[len(calls)/3*i+1].Outcome})
 	}
-	bad, err := lib.Judge(c, "JudgeEvalOutcome", dir, "JudgeEvalOutcome", js, 6, 10*time.Minute)
+	// the editor's pure helper named in the quantifier: subsequence matching, in-process
+	helperStrings := []class{{"empty", ""}, {"badutf8-2", "\xff\xfe"}, {"badutf8-1", "\xc3"}, {"dash", "-"}, {"foo", "foo"}, {"oof", "oof"},
+		{"multi", "é你😀"}, {"cjk", "你"}, {"long", strings.Repeat("ab", 4000)}}
+	var helpers []call
+	for _, a := range helperStrings {
+		for _, b := range helperStrings {
+			o := "returned-nil"
+			det := ""
+			func() {
+				defer func() {
+					if r := recover(); r != nil {
+						o, det = "panic", fmt.Sprint(r)
+					}
+				}()
+				strutil.HasSubseq(a.Src, b.Src)
+			}()
+			id := len(js)
+			cl := call{ID: id, Kind: "helper", Cmd: "strutil.HasSubseq", Slots: []slot{{a.Name, a.Src, ""}, {b.Name, b.Src, ""}}, Code: fmt.Sprintf("strutil.HasSubseq(%.20q, %.20q)", a.Src, b.Src), Form: noForm}
+			helpers = append(helpers, cl)
+			calls = append(calls, cl)
+			outs = append(outs, outcome{ID: id, Outcome: o, Detail: det})
+			js = append(js, judged{ID: id, Kind: "helper", Outcome: o, Form: noForm})
+			hist[o]++
+		}
+	}
+	c.AddEvals(len(helpers))
+	bad, err := lib.Judge(c, "JudgeEvalOutcome", dir, "JudgeEvalOutcome", js, 4, 20*time.Minute)
 	if err != nil {
 		return err
 	}
@@ -226,6 +255,8 @@ func runSweep(c *lib.Ctx, dir string) error {
 			rejs = append(rejs, rej{why, what, cl, o})
 		case o.Outcome == "blocked":
 			rejs = append(rejs, rej{"hang:" + cl.stem(), what, cl, o})
+		case cl.Kind == "helper":
+			rejs = append(rejs, rej{"crash:" + cl.stem(), what, cl, o})
 		default:
 			crashed = append(crashed, b.Index)
 			rejs = append(rejs, rej{"", what, cl, o})
@@ -349,7 +380,7 @@ func crashKeys(sw *sweeper, cs []call) ([]string, error) {
 			// every position is benign: the benign call itself crashes; keep the classes
 			cls = c.classes()
 		}
-		keys[i] = "crash:" + c.Cmd + ":" + strings.Join(cls, ",")
+		keys[i] = "crash:" + c.Cmd + ":" + keyClasses(c, cls)
 	}
 	return keys, nil
 }
